@@ -57,7 +57,12 @@ def write_fasta(world, path, seqs=None, gz=False):
     return seqs
 
 
-def gtf_text(world, with_gene_records=True, with_transcript_records=True, extra_exon_attrs=None):
+def gtf_text(world, with_gene_records=True, with_transcript_records=True, extra_exon_attrs=None, style="plain"):
+    """style 'plain': gene, transcript, exons ascending.  'ensembl': exons of '-' transcripts in transcript (descending) order, CDS /
+    start_codon / stop_codon / UTR records, name and biotype attributes.  'shuffled': the records of each gene in a fixed scrambled
+    order (exons before their transcript, transcripts interleaved)"""
+    if style != "plain":
+        return _gtf_text_styled(world, style)
     lines = []
     for g in world.get("genes", []):
         ts = g["transcripts"]
@@ -83,6 +88,47 @@ def gtf_text(world, with_gene_records=True, with_transcript_records=True, extra_
                 if eid:
                     eattr += ' exon_id "%s";' % eid
                 lines.append("\t".join([g["chr"], src, "exon", str(s), str(e), ".", strand, ".", eattr]))
+    return "\n".join(lines) + ("\n" if lines else "")
+
+
+def _gtf_text_styled(world, style):
+    lines = []
+    for g in world.get("genes", []):
+        ts = g["transcripts"]
+        gs = min(t["exons"][0][0] for t in ts)
+        ge = max(t["exons"][-1][1] for t in ts)
+        src = g.get("source", "SYN")
+        gattr = 'gene_id "%s";' % g["id"]
+        if style == "ensembl":
+            gattr += ' gene_version "3"; gene_name "%s-name"; gene_source "syn"; gene_biotype "protein_coding";' % g["id"]
+        glines = [(0, "\t".join([g["chr"], src, "gene", str(gs), str(ge), ".", g["strand"], ".", gattr]))]
+        for ti, t in enumerate(ts):
+            strand = t.get("strand", g["strand"])
+            tattr = 'gene_id "%s"; transcript_id "%s";' % (g["id"], t["id"])
+            if style == "ensembl":
+                tattr = gattr + ' transcript_id "%s"; transcript_version "1"; transcript_name "%s-201"; transcript_biotype "protein_coding"; tag "basic";' % (t["id"], t["id"])
+            glines.append((1 + ti * 100, "\t".join([g["chr"], src, "transcript", str(t["exons"][0][0]), str(t["exons"][-1][1]), ".", strand, ".", tattr])))
+            exons = list(t["exons"])
+            order = list(reversed(exons)) if (style == "ensembl" and strand == "-") else exons
+            for i, (s, e) in enumerate(order):
+                eattr = tattr + ' exon_number "%d";' % (i + 1)
+                eid = (t.get("exon_ids") or {}).get("%d-%d" % (s, e))
+                if eid:
+                    eattr += ' exon_id "%s";' % eid
+                glines.append((2 + ti * 100 + i * 3, "\t".join([g["chr"], src, "exon", str(s), str(e), ".", strand, ".", eattr])))
+                if style == "ensembl" and e - s >= 8:
+                    glines.append((3 + ti * 100 + i * 3, "\t".join([g["chr"], src, "CDS", str(s + 3), str(e - 3), ".", strand, "0", eattr + ' protein_id "P%s";' % t["id"]])))
+            if style == "ensembl":
+                s0, e0 = exons[0]
+                s1, e1 = exons[-1]
+                glines.append((90 + ti * 100, "\t".join([g["chr"], src, "start_codon" if strand == "+" else "stop_codon", str(s0 + 3), str(min(s0 + 5, e0)), ".", strand, "0", tattr])))
+                glines.append((91 + ti * 100, "\t".join([g["chr"], src, "five_prime_utr" if strand == "+" else "three_prime_utr", str(s0), str(min(s0 + 2, e0)), ".", strand, ".", tattr])))
+                glines.append((92 + ti * 100, "\t".join([g["chr"], src, "stop_codon" if strand == "+" else "start_codon", str(max(e1 - 5, s1)), str(max(e1 - 3, s1)), ".", strand, "0", tattr])))
+        if style == "shuffled":
+            glines.sort(key=lambda x: hashlib.sha256(x[1].encode()).hexdigest())
+        else:
+            glines.sort(key=lambda x: x[0])
+        lines += [l for _, l in glines]
     return "\n".join(lines) + ("\n" if lines else "")
 
 
